@@ -339,6 +339,7 @@ class Engine:
                     if len(q.pc) != n_pc: raise Unsupported('impure condition in a comprehension')
                     return c_
                 r = p.heap.new(p, 'comp'); arr = fresh('comp', z3.ArraySort(I, I)); m = fresh('comp_len', I); v = z3.Function(f'comp_dst!{next(_n)}', I, I)
+                ARR_SIG[arr.decl().name()] = _canon_arr(z3.Select(p.heap.arr('$items:int'), r))          # the fresh items array carries the signature of the list it becomes
                 p.heap.store(r, '$items:int', arr); p.heap.store(r, '$len', m); p.pc += [0 <= m, m <= n]
                 p.facts.append(Schematic(1, lambda k: Implies(And(0 <= k, k < m), And(0 <= arr[k], arr[k] < n, cond(arr[k]), Implies(k + 1 < m, arr[k] < arr[k + 1]))), 'comp-sound-increasing'))
                 p.facts.append(Schematic(1, lambda j: Implies(And(0 <= j, j < n, cond(j)), And(0 <= v(j), v(j) < m, arr[v(j)] == j)), 'comp-complete'))
@@ -352,6 +353,7 @@ class Engine:
                 if not g.ifs: return z3.BoolVal(True)
                 q = p.fork(); q.env[var] = vint(t); return self.truth(self.ev(g.ifs[0], q), q)
             r = p.heap.new(p, 'comp'); arr = fresh('comp', z3.ArraySort(I, I)); m = fresh('comp_len', I)
+            ARR_SIG[arr.decl().name()] = _canon_arr(z3.Select(p.heap.arr('$items:int'), r))
             w = z3.Function(f'comp_src!{next(_n)}', I, I); v = z3.Function(f'comp_dst!{next(_n)}', I, I)
             p.heap.store(r, '$items:int', arr); p.heap.store(r, '$len', m); p.pc += [0 <= m, m <= n]
             p.facts.append(Schematic(1, lambda k: Implies(And(0 <= k, k < m), And(0 <= w(k), w(k) < n, it[w(k)] == arr[k], cond(arr[k]))), 'comp-sound'))
@@ -885,6 +887,12 @@ def decide(E, spec, timeout=60000, B=2, exclude=()):
 def discharge_rel(ob, spec, timeout=60000):
     """relevance filtering (the `uses=` of DESIGN §2.1): first try with the hypotheses the sidecar names as relevant for this kind of
     obligation (sound: fewer hypotheses), then with all of them"""
+    rel = spec.relevant(ob.label) if hasattr(spec, 'relevant') else None
+    if rel is not None and getattr(spec, 'relaxed_first', False):
+        # sidecars whose lists are named through two access paths: the owner-relaxed matching over the relevant hypotheses is the stage that succeeds
+        keep = [sc for sc in ob.schem if any(sc.name.startswith(pfx) if pfx else sc.name == '' for pfx in rel)]
+        r, dt, n, s = discharge_typed(RawOb(ob.label, ob.pc, keep, ob.goal, ob.line), timeout=min(timeout, 20000), cap_per_var=6, relax=True)
+        if r == z3.unsat: return r, dt, n, s
     # cheapest first: few candidates per bound variable (the needed ones are almost always the skolems and loop indices)
     r, dt, n, s = discharge_typed(ob, timeout=min(timeout, 15000), cap_per_var=8)
     if r == z3.unsat: return r, dt, n, s
@@ -894,6 +902,9 @@ def discharge_rel(ob, spec, timeout=60000):
         if len(keep) < len(ob.schem):
             sub = RawOb(ob.label, ob.pc, keep, ob.goal, ob.line)
             r, dt, n, s = discharge_typed(sub, timeout=min(timeout, 20000))
+            if r == z3.unsat: return r, dt, n, s
+            # owner-relaxed matching over the relevant hypotheses with few candidates per variable (one list named through two access paths)
+            r, dt, n, s = discharge_typed(sub, timeout=min(timeout, 20000), cap_per_var=6, relax=True)
             if r == z3.unsat: return r, dt, n, s
     return discharge_typed(ob, timeout=timeout)
 
@@ -937,7 +948,10 @@ def _decide_one(i):
         if r2 == z3.sat:
             m = s2.model(); vals = spec.model_values(E, m) if hasattr(spec, 'model_values') else {}
             return (i, 'refuted', dt + dt2, 'bounded-scope counter-model', vals)
-        # no counter-model in the small scope: the stage-1 `sat` was an artefact of incomplete instantiation -> deeper instantiation
+        if _POOL.get('fast'): return (i, 'unknown', dt + dt2, 'fast-mode: not proved by the first-stage ladder', None)
+        # no counter-model in the small scope: the stage-1 `sat` was an artefact of incomplete instantiation -> relaxed matching, then deeper instantiation
+        r5, dt5, ninst5, s5 = discharge_typed(ob, timeout=min(timeout, 20000), cap_per_var=10, relax=True)
+        if r5 == z3.unsat: return (i, 'proved', dt + dt2 + dt5, f'{ninst5} instances (owner-relaxed matching)', None)
         r3, dt3, ninst, s3 = discharge_typed(ob, timeout=timeout, rounds=6, cap_per_var=120, max_inst=40000)
         if r3 == z3.unsat: return (i, 'proved', dt + dt2 + dt3, f'{ninst} instances (deep)', None)
         # last resort: untyped eager instantiation over every index term (+-1): heavier, but independent of the signature heuristics
@@ -947,12 +961,31 @@ def _decide_one(i):
     except Exception as e:
         import traceback; return (i, 'error', 0.0, traceback.format_exc()[-600:], None)
 
-def decide_parallel(E, spec, timeout=40000, B=2, exclude=(), procs=16):
+STAGE1 = {}          # function name -> labels of the obligations that the FIRST-stage ladder proved on the real function in this process (filled by verify)
+def decide_parallel(E, spec, timeout=40000, B=2, exclude=(), procs=16, canary=False):
+    """canary=True (mutants): the question is only whether SOME obligation is no longer proved.  Obligations are then decided with the first-stage ladder
+    only and the pool stops at the first one that is refuted, or that fails although the same ladder proved it on the real function (STAGE1); obligations
+    whose proof on the real function needed the deeper stages are re-decided with the full ladder if nothing else failed.  Only finished obligations are returned."""
     from vlib import core
     extra = spec.exclusions(E, exclude) if exclude else []
     for ob in E.obs: ob.schem = ob.schem + extra
-    _POOL['args'] = (E, spec, timeout, B, extra)
-    res = core.run_pool(_decide_one, len(E.obs), procs)
+    _POOL['args'] = (E, spec, timeout, B, extra); _POOL['fast'] = False
+    # hard wall-clock limit per obligation (all stages together): a query on which z3 ignores its soft timeout becomes 'unknown' instead of hanging the check
+    hard = 6 * timeout / 1000.0 + 120
+    tmo = lambda i: (i, 'unknown', hard, f'hard wall-clock limit of {hard:.0f}s: the solver did not return', None)
+    if canary:
+        base = STAGE1.get(getattr(E.fn, 'name', None), set()); _POOL['fast'] = True
+        killed = lambda r: r is not None and (r[1] == 'refuted' or (r[1] != 'proved' and E.obs[r[0]].label in base))
+        try: res = core.run_pool(_decide_one, len(E.obs), procs, hard_s=hard, on_timeout=tmo, stop_when=killed)
+        finally: _POOL['fast'] = False
+        done = [r for r in res if r is not None]
+        if any(killed(r) for r in done): return [(E.obs[i], st, dt, det, mv) for (i, st, dt, det, mv) in done]
+        redo = [r[0] for r in done if r[1] != 'proved']
+        if redo:
+            full = core.run_pool(lambda k: _decide_one(redo[k]), len(redo), procs, hard_s=hard, on_timeout=lambda k: tmo(redo[k])); byi = {r[0]: r for r in full}
+            done = [byi.get(r[0], r) for r in done]
+        return [(E.obs[i], st, dt, det, mv) for (i, st, dt, det, mv) in done]
+    res = core.run_pool(_decide_one, len(E.obs), procs, hard_s=hard, on_timeout=tmo)
     return [(E.obs[i], st, dt, det, mv) for (i, st, dt, det, mv) in res]
 
 # ------------------------------------------------------------------------------------------------------------ typed instantiation
@@ -1035,9 +1068,17 @@ import re as _re
 _bang = _re.compile(r'!\d+')
 def _term_key(t):
     """deterministic, run-independent ordering of candidate terms: small terms first; fresh-name counters are ignored"""
+    # (z3's python pretty printer takes minutes on deeply nested store chains: terms above a node budget are keyed by the C printer's s-expression)
+    if _tree_size(t, 400) >= 400:
+        st = _bang.sub('!', t.sexpr()); return (100000 + len(st), st)
     st = _bang.sub('!', str(t)); return (len(st), st)
+def _tree_size(t, budget):
+    n = 0; stack = [t]
+    while stack and n < budget:
+        x = stack.pop(); n += 1; stack.extend(x.children())
+    return n
 
-def discharge_typed(ob, timeout=60000, rounds=3, extra_hyps=(), cap_per_var=40, max_inst=12000):
+def discharge_typed(ob, timeout=60000, rounds=3, extra_hyps=(), cap_per_var=40, max_inst=12000, relax=False):
     """E-matching done by the generator: each universally quantified hypothesis is instantiated only with ground terms that occur
     as an index of an array (or argument of a ghost function) of the same signature as one of the positions where the bound
     variable occurs in the hypothesis.  Sound (instances only); the result is quantifier-free."""
@@ -1046,6 +1087,12 @@ def discharge_typed(ob, timeout=60000, rounds=3, extra_hyps=(), cap_per_var=40, 
     cur = list(base)
     for rnd in range(rounds):
         ground, _ = _occurrences(cur + insts, [])
+        if relax:
+            # relaxed matching: the OWNER of an array is ignored (`xs[k]` matches an index of any list with the same element kind).  Needed when one list is
+            # named through two access paths (a local and a field of a record); still instances only, hence sound
+            g2 = {}
+            for sig, d in ground.items(): g2.setdefault(sig.split('@')[0], {}).update(d)
+            ground = g2
         allg = {}
         for sig, d in ground.items(): allg.update(d)
         new = []
@@ -1054,7 +1101,7 @@ def discharge_typed(ob, timeout=60000, rounds=3, extra_hyps=(), cap_per_var=40, 
             for k in range(sc.n):
                 cand = {}
                 for (off, sig) in pats[k]:
-                    for t in ground.get(sig, {}).values():
+                    for t in ground.get(sig.split('@')[0] if relax else sig, {}).values():
                         u = z3.simplify(t - off) if off else t; cand[u.get_id()] = u
                 if not pats[k]:
                     for t in list(allg.values())[:cap_per_var]: cand[t.get_id()] = t
@@ -1088,6 +1135,7 @@ def verify(rep, prop, fn, spec, select=None, exclude=(), replay=None, fallback=N
         if fb and fb.get('confirmed'): ob.status = core.REFUTED; ob.replay = fb
         rep.add(ob); return []
     res = decide_parallel(E, spec, timeout=timeout, B=B, exclude=exclude)
+    if not exclude: STAGE1[fn.name] = {ob.label for ob, st, dt, det, mv in res if st == 'proved' and str(det).endswith('instances')}
     counts = {}; out = []
     for ob, st, dt, det, mv in res:
         k = counts.get(ob.label, 0); counts[ob.label] = k + 1
